@@ -178,6 +178,7 @@ class AgentWorld(object):
         self.obs_log = []
         self.exceptions = []
         self.overruns = 0
+        self.held = []          # reactor.callFromThread calls of a REST worker thread that has not been scheduled again yet
         self._boot(handler_factory)
 
     # ------------------------------------------------------------------ boot
@@ -317,6 +318,22 @@ class AgentWorld(object):
         elif kind == 'REST':
             req = messages['@' + ev[1]]
             fn = lambda: s.effect(('rest',) + self.rest(*req))   # noqa
+        elif kind == 'REST_HOLD':
+            # the request is answered by its worker thread, but what it handed to reactor.callFromThread has not run yet: the
+            # reactor thread goes on with other events first (('DRAIN',) runs the calls)
+            req = messages['@' + ev[1]]
+
+            def fn():
+                s.effect(('rest',) + self.rest(*req))
+                self.held.extend(s.thread_q)
+                del s.thread_q[:]
+        elif kind == 'DRAIN':
+            if not self.held:
+                raise ReplayDivergence('event %r not enabled (nothing is held)' % (ev,))
+
+            def fn():
+                s.thread_q.extend(self.held)
+                del self.held[:]
         elif kind == 'MQ':
             item = messages['@mq:' + ev[1]]
             fn = lambda: self.handler.inter_mq.put(copy.deepcopy(item))   # noqa  (application queues a message; sent on the next KEEPALIVE)
@@ -422,7 +439,8 @@ class AgentWorld(object):
                 calls, tuple(conns), fp is None, self.peering.estab_protocol is None,
                 bool(fp is not None and fp.transport is not None and fp.transport.connected),
                 repr(_summ(rc['capability']['local'])), repr(_summ(rc['capability']['remote'])),
-                self.peering.peer_id, self.peering.bgp_id, tuple(_summ(x) for x in list(self.handler.inter_mq.queue)), conn_ref, tuple(extra))
+                self.peering.peer_id, self.peering.bgp_id, tuple(_summ(x) for x in list(self.handler.inter_mq.queue)), conn_ref,
+                tuple(getattr(f_, '__name__', '?') for f_, _a, _k in self.held), tuple(extra))
 
 
 class ReplayDivergence(Exception):
